@@ -165,6 +165,9 @@ func (e *Ev) evRegexMethod(x *ast.CallExpr, rv VRegex, name string) Val {
 		fx.trusted["regexp.MatchString(s) <=> dec(s) in L(pattern) (assumed; L computed from regexp/syntax of the real pattern, DESIGN 2.5)"] = true
 		return VBool{"(inlang_" + ln + " " + fx.seqOf(s) + ")"}
 	}
+	if name == "ReplaceAllStringFunc" {
+		return e.evReplaceFunc(x, rv)
+	}
 	if name == "ReplaceAllString" {
 		s, ok := e.ev(x.Args[0]).(VStr)
 		rep, ok2 := e.ev(x.Args[1]).(VStr)
@@ -197,4 +200,130 @@ func (e *Ev) evRegexMethod(x *ast.CallExpr, rv VRegex, name string) Val {
 	}
 	e.unsupp(x, "regexp method %s is not modelled", name)
 	return nil
+}
+
+// VStrMap is a map[string]string parameter: uninterpreted functions of the key contents.
+type VStrMap struct{ ID string }
+
+func (e *Ev) strMapLookup(m VStrMap, key Val, commaOk bool, n ast.Node) Val {
+	k, ok := key.(VStr)
+	if !ok {
+		e.unsupp(n, "map key must be a string")
+	}
+	fx := e.fx
+	fx.useSeq = true
+	fx.specUsed["strmap_"+m.ID] = true
+	fx.prog.declareStrMap(m.ID)
+	ks := fx.seqOf(k)
+	has := "(maphas_" + m.ID + " " + ks + ")"
+	o := fx.name(sortInt, "mo", "(mapo_"+m.ID+" "+ks+")")
+	l := fx.name(sortInt, "ml", "(mapl_"+m.ID+" "+ks+")")
+	v := VStr{B: "(mapb_" + m.ID + " " + ks + ")", O: o, L: l}
+	if !e.contract {
+		fx.emit(fmt.Sprintf("(assert (and (<= 0 %s) (<= 0 %s) (< %s %s) (< %s %s) (=> (not %s) (= %s 0))))", o, l, l, maxLen, o, maxLen, has, l))
+	} else {
+		v = VStr{B: "(mapb_" + m.ID + " " + ks + ")", O: "(mapo_" + m.ID + " " + ks + ")", L: "(mapl_" + m.ID + " " + ks + ")"}
+	}
+	if commaOk {
+		return VTuple{v, VBool{has}}
+	}
+	return v
+}
+
+func (p *Prog) declareStrMap(id string) {
+	p.rxMu.Lock()
+	defer p.rxMu.Unlock()
+	name := "strmap_" + id
+	if _, ok := p.spec.Funcs[name]; ok {
+		return
+	}
+	def := fmt.Sprintf("(declare-fun maphas_%s (BSeq) Bool)\n(declare-fun mapb_%s (BSeq) (Array Int Int))\n(declare-fun mapo_%s (BSeq) Int)\n(declare-fun mapl_%s (BSeq) Int)", id, id, id, id)
+	p.spec.Funcs[name] = &SpecFunc{Name: name, Ret: "bool", Prerendered: def}
+	p.spec.FuncOrder = append(p.spec.FuncOrder, name)
+}
+
+// evReplaceFunc models re.ReplaceAllStringFunc(src, func(match string) string {...}): the function
+// literal is verified against the contract's "closure N" block for one call with an arbitrary match
+// of the pattern and arbitrary values of the captured variables it assigns (any number of earlier
+// calls); the result of the whole call is an unknown string and those variables are unknown after it.
+// Assumed higher-order contract: f is called once per non-overlapping match, left to right, and the
+// results are spliced between the unmatched parts of src.
+func (e *Ev) evReplaceFunc(x *ast.CallExpr, rv VRegex) Val {
+	fx := e.fx
+	lit, ok := unparen(x.Args[1]).(*ast.FuncLit)
+	if !ok {
+		e.unsupp(x, "ReplaceAllStringFunc needs a function literal")
+	}
+	fx.nclosure++
+	ord := fx.nclosure
+	var cc *Contract
+	if fx.con != nil {
+		cc = fx.con.Closures[ord]
+	}
+	if cc == nil {
+		e.unsupp(x, "function literal %d has no closure contract", ord)
+	}
+	fx.trusted["regexp.ReplaceAllStringFunc calls the function once per non-overlapping match, left to right, and splices its results between the unmatched text (assumed higher-order contract)"] = true
+	e.ev(x.Args[0])
+	ln := "re_" + rv.Var
+	fx.prog.registerCodeRegex(ln, rv.Pattern)
+	fx.langsUsed[ln] = true
+	sig := e.info.TypeOf(lit).(*types.Signature)
+	if sig.Params().Len() != 1 || len(cc.Params) != 1 {
+		e.unsupp(x, "closure must take the match")
+	}
+	// captured variables assigned inside the literal
+	ex := &Exec{fx: fx, info: e.info, sig: sig}
+	mods := ex.modified([]ast.Node{lit.Body}, e.st)
+	pre := e.st.clone()
+	pre.pc = fx.name(sortBool, "pc", e.st.pc)
+	for _, o := range mods {
+		pre.env[o] = fx.havocLike(pre.env[o], o)
+	}
+	// the match
+	pobj := e.info.Defs[lit.Type.Params.List[0].Names[0]]
+	match := fx.freshStr("match")
+	fx.assume(pre.pc, "(inlang_"+ln+" "+fx.seqOf(match)+")")
+	if ml, ok := fx.prog.minLen(ln); ok {
+		fx.assume(pre.pc, sLe(fmt.Sprintf("%d", ml), match.L))
+		fx.trusted[fmt.Sprintf("every match of %s has at least %d bytes (shortest word of its automaton)", rv.Var, ml)] = true
+	}
+	call := pre.clone()
+	call.env[pobj] = match
+	clEv := func(st *State, results []Val) *Ev {
+		ce := fx.clauseEv(st, lit.Body.Lbrace+1, nil)
+		inner := ce.lookup
+		ce.lookup = func(name string) (Val, bool) {
+			if name == cc.Params[0] {
+				return match, true
+			}
+			if len(cc.Results) == 1 && name == cc.Results[0] && results != nil {
+				return results[0], true
+			}
+			return inner(name)
+		}
+		ce.beforeEv = fx.clauseEv(pre, lit.Body.Lbrace+1, nil)
+		return ce
+	}
+	for _, rq := range cc.Requires {
+		ce := clEv(call, nil)
+		fx.assume(call.pc, ce.boolOf(ce.ev(rq.Expr), rq.Expr))
+	}
+	flow := ex.block(lit.Body.List, call)
+	for _, r := range flow.rets {
+		for i, en := range cc.Ensures {
+			lbl := en.Label
+			if lbl == "" {
+				lbl = fmt.Sprintf("ensures%d", i+1)
+			}
+			ce := clEv(r.st, r.vals)
+			t := ce.boolOf(ce.ev(en.Expr), en.Expr)
+			fx.obligeSplit("post", fmt.Sprintf("closure%d.post.%s@ret%d", ord, lbl, r.ord), r.pos, r.st.pc, t, "closure postcondition: "+en.Text)
+		}
+	}
+	// after the whole call: assigned captured variables are unknown
+	for _, o := range mods {
+		e.st.env[o] = fx.havocLike(e.st.env[o], o)
+	}
+	return fx.freshStr("replaced")
 }
